@@ -144,6 +144,12 @@ def gen_cases(rec, rng, tier):
             t = rxg.random_tree(rng, rng.randint(3, 12), rng.choice(['ab', 'abc', 'a']), p_leaf=rng.choice([0.15, 0.3]), bias=bias)
             if rx.size_iter(t) <= 600:
                 yield {'kind': 'rx', 'cls': 'random_%s' % (bias or 'plain'), 'tree': t}
+    for t in common.shard_slice(rxg.enum_trees(4, (('0',), ('1',), ('s', '_'), ('s', 'a'))), rec):
+        yield {'kind': 'rx', 'cls': 'enum_tree_underscore_symbol', 'tree': t}
+    for _ in range(60 if thorough else 15):
+        t = rxg.random_tree(rng, rng.randint(2, 6), rng.choice(['_a', 'ε_', 'e#', '$a']), bias=rng.choice([None, 'star', 'unit']))
+        if rx.size_iter(t) <= 80:
+            yield {'kind': 'rx', 'cls': 'random_special_symbols', 'tree': t}
     for op in '+.':
         for left in (True, False):
             yield {'kind': 'rx', 'cls': 'comb', 'tree': rxg.comb(60, op, left=left)}
